@@ -5,6 +5,8 @@ use crate::par::Sched;
 
 pub const TIER_NAME: &str = "shuttle";
 /// divisor applied to the case counts of the checks (the real-thread fallback is ~50x slower per execution)
+/// all tasks of one execution run on the same OS thread (thread-local counters see the whole execution)
+pub const SINGLE_OS_THREAD: bool = true;
 pub const WORK_DIVISOR: u64 = 1;
 
 #[inline]
